@@ -6,6 +6,7 @@ import (
 	"bytes"
 	"context"
 	"fmt"
+	"os"
 	"sort"
 	"strings"
 	"sync"
@@ -13,21 +14,34 @@ import (
 	"testing/synctest"
 
 	"github.com/KafScale/platform/pkg/metadata"
+	"github.com/KafScale/platform/pkg/protocol"
 	"pgregory.net/rapid"
 	"verif.local/vfkit"
 )
 
-// C01 / C05 at handler level: 2-4 concurrent producers send real Produce requests
-// (acks 1/-1/0, 1-2 partitions each) to ONE real broker handler; every S3 upload and
-// every metadata-store end-offset update is a scheduling point owned by the harness
-// (deterministic scheduler on testing/synctest); uploads fail per a generated plan.
+// C01 / C03 / C05 at handler level, two phases on ONE store and ONE S3 model:
+//
+// phase 1: 2-4 concurrent clients send real Produce requests (acks 1/-1/0, 1-2 partitions
+//          each) to a real broker handler; optionally the topic does not exist yet
+//          (auto-create). The process may die at a drawn scheduling step (every later S3 /
+//          store call fails without effect, replies are not delivered).
+// phase 2: a NEW handler on the same store and S3 model (cold partitions: each is restored
+//          from S3 on first touch); 0-3 concurrent clients produce and fetch.
+// Every S3 upload, every S3 listing (the restore of a cold partition), every
+// store.UpdateOffsets (end-offset publish) and store.CreateTopic is a scheduling point
+// owned by the harness (deterministic scheduler on testing/synctest); uploads fail per a
+// generated plan.
 //
 // C01: a partition answered with code 0 (acks != 0) must at that moment be in an S3
-// segment that has its index (own codec), and be fetchable from a new handler afterwards.
+//      segment of THAT partition that has its index (own codec), and be fetchable from a
+//      fresh handler at the end.
+// C03: every batch a Fetch returns must be byte-identical to a batch produced to THAT
+//      partition.
 // C05: after every scheduling step the store's NextOffset per partition never decreases
-// and never exceeds 1 + the last offset in complete S3 segments.
+//      and never exceeds 1 + the last offset in complete S3 segments of that partition.
 
 type c01hReq struct {
+	Fetch bool // phase 2 only: Fetch(partition of Parts[0], offset 0)
 	Acks  int16
 	Parts []c01hPart
 }
@@ -37,50 +51,88 @@ type c01hPart struct {
 }
 
 type c01hPlan struct {
-	Workers   [][]c01hReq
-	SegBytes  int
-	SegFaults []vfkit.FaultKind
-	IdxFaults []vfkit.FaultKind
-	Picks     []int
+	Workers    [][]c01hReq
+	Workers2   [][]c01hReq
+	AutoCreate bool
+	CrashAt    int // phase 1 dies before this scheduling step (-1: never)
+	// CrashOnPublish k>0: the process dies the k-th time an end-offset update is parked,
+	// i.e. after the upload and before the metadata write: S3 ends up ahead of the store
+	CrashOnPublish int
+	SegBytes   int
+	SegFaults  []vfkit.FaultKind
+	IdxFaults  []vfkit.FaultKind
+	Picks      []int
+}
+
+func c01hDrawReqs(t *rapid.T, maxReq int, withFetch bool) []c01hReq {
+	n := rapid.IntRange(1, maxReq).Draw(t, "nreq")
+	var reqs []c01hReq
+	for i := 0; i < n; i++ {
+		r := c01hReq{Acks: rapid.SampledFrom([]int16{1, -1, -1, 1, 0}).Draw(t, "acks")}
+		np := rapid.IntRange(1, 2).Draw(t, "nparts")
+		first := int32(rapid.IntRange(0, 1).Draw(t, "part"))
+		for k := 0; k < np; k++ {
+			r.Parts = append(r.Parts, c01hPart{Partition: (first + int32(k)) % 2, Records: rapid.IntRange(1, 4).Draw(t, "records")})
+		}
+		if withFetch && rapid.IntRange(0, 2).Draw(t, "fetchdie") == 0 {
+			r.Fetch = true
+		}
+		reqs = append(reqs, r)
+	}
+	return reqs
 }
 
 func c01hDraw(t *rapid.T) c01hPlan {
 	var p c01hPlan
 	nw := rapid.IntRange(2, 4).Draw(t, "workers")
 	for w := 0; w < nw; w++ {
-		n := rapid.IntRange(1, 3).Draw(t, "nreq")
-		var reqs []c01hReq
-		for i := 0; i < n; i++ {
-			r := c01hReq{Acks: rapid.SampledFrom([]int16{1, -1, -1, 1, 0}).Draw(t, "acks")}
-			np := rapid.IntRange(1, 2).Draw(t, "nparts")
-			first := int32(rapid.IntRange(0, 1).Draw(t, "part"))
-			for k := 0; k < np; k++ {
-				r.Parts = append(r.Parts, c01hPart{Partition: (first + int32(k)) % 2, Records: rapid.IntRange(1, 4).Draw(t, "records")})
-			}
-			reqs = append(reqs, r)
-		}
-		p.Workers = append(p.Workers, reqs)
+		p.Workers = append(p.Workers, c01hDrawReqs(t, 3, false))
 	}
+	nw2 := rapid.IntRange(0, 3).Draw(t, "workers2")
+	for w := 0; w < nw2; w++ {
+		p.Workers2 = append(p.Workers2, c01hDrawReqs(t, 2, true))
+	}
+	p.AutoCreate = rapid.IntRange(0, 3).Draw(t, "autocreate") == 0
+	p.CrashAt = rapid.SampledFrom([]int{-1, -1, 2, 4, 6, 9, 13}).Draw(t, "crashat")
+	p.CrashOnPublish = rapid.SampledFrom([]int{0, 0, 0, 1, 2, 3}).Draw(t, "crashonpublish")
 	p.SegBytes = rapid.SampledFrom([]int{0, 0, 150, 400}).Draw(t, "segbytes")
 	fk := rapid.SampledFrom([]vfkit.FaultKind{vfkit.FaultNone, vfkit.FaultNone, vfkit.FaultNone, vfkit.FaultBefore, vfkit.FaultAfter})
 	p.SegFaults = rapid.SliceOfN(fk, 0, 8).Draw(t, "segfaults")
 	p.IdxFaults = rapid.SliceOfN(fk, 0, 8).Draw(t, "idxfaults")
-	p.Picks = rapid.SliceOfN(rapid.IntRange(0, 5), 0, 50).Draw(t, "picks")
+	p.Picks = rapid.SliceOfN(rapid.IntRange(0, 5), 0, 70).Draw(t, "picks")
 	return p
 }
 
-// c01hStore gates UpdateOffsets (the end-offset publish) on the scheduler.
+// c01hStore gates UpdateOffsets (the end-offset publish) and CreateTopic on the scheduler
+// and fails every call once the process is dead.
 type c01hStore struct {
 	metadata.Store
 	sched *vfkit.Sched
 	gated *bool
+	dead  *bool
+	mu    *sync.Mutex
 }
+
+func (s *c01hStore) isDead() bool { s.mu.Lock(); defer s.mu.Unlock(); return *s.dead }
 
 func (s *c01hStore) UpdateOffsets(ctx context.Context, topic string, partition int32, lastOffset int64) error {
 	if *s.gated {
 		s.sched.Gate("store", fmt.Sprintf("update-offsets %s/%d %020d", topic, partition, lastOffset))
 	}
+	if s.isDead() {
+		return fmt.Errorf("vf: process is dead")
+	}
 	return s.Store.UpdateOffsets(ctx, topic, partition, lastOffset)
+}
+
+func (s *c01hStore) CreateTopic(ctx context.Context, spec metadata.TopicSpec) (*protocol.MetadataTopic, error) {
+	if *s.gated {
+		s.sched.Gate("store", "create-topic "+spec.Name)
+	}
+	if s.isDead() {
+		return nil, fmt.Errorf("vf: process is dead")
+	}
+	return s.Store.CreateTopic(ctx, spec)
 }
 
 type c01hAck struct {
@@ -92,14 +144,17 @@ type c01hAck struct {
 }
 
 type c01hOut struct {
-	V01, V05    []string
-	Trace       []string
-	Acks        []c01hAck
-	Failed      bool
-	Concurrent  bool
-	PubParked   bool
-	Published   map[int32][]int64
-	EmptyFlushF bool
+	V01, V03, V05 []string
+	Trace         []string
+	Acks          []c01hAck
+	Failed        bool
+	Concurrent    bool
+	PubParked     bool
+	Crashed       bool
+	ColdConc      bool // two requests in flight while a cold partition's S3 listing was parked
+	AutoRace      bool // create-topic parked with another request in flight
+	Fetches       int
+	Published     map[int32][]int64
 }
 
 func c01hSegHas(obj *vfkit.ObjStore, a c01hAck) string {
@@ -127,7 +182,7 @@ func c01hSegHas(obj *vfkit.ObjStore, a c01hAck) string {
 			}
 		}
 	}
-	return fmt.Sprintf("partition %d batch %s acked at base offset %d (%d records) is in no S3 segment that has its index; keys %v", a.Partition, a.Tag, a.Base, a.Records, keys)
+	return fmt.Sprintf("partition %d batch %s acked at base offset %d (%d records) is in no S3 segment of that partition that has its index; keys %v", a.Partition, a.Tag, a.Base, a.Records, keys)
 }
 
 func c01hDurableEnd(obj *vfkit.ObjStore, partition int32) int64 {
@@ -155,10 +210,15 @@ func c01hRun(t *testing.T, p c01hPlan) (out c01hOut) {
 		obj := vfkit.NewObjStore()
 		sched := vfkit.NewSched()
 		gated := true
+		dead := false
 		var mu sync.Mutex
 		segN, idxN := 0, 0
 		inFlight := 0
+		faultsOn := true
 		obj.Fault = func(op vfkit.ObjOp) vfkit.FaultKind {
+			if !faultsOn {
+				return vfkit.FaultNone
+			}
 			switch op.Kind {
 			case "put-segment":
 				segN++
@@ -174,7 +234,10 @@ func c01hRun(t *testing.T, p c01hPlan) (out c01hOut) {
 			return vfkit.FaultNone
 		}
 		obj.OnOp = func(op vfkit.ObjOp) {
-			if gated && strings.HasPrefix(op.Kind, "put-") {
+			if !gated {
+				return
+			}
+			if strings.HasPrefix(op.Kind, "put-") {
 				if op.Fault != vfkit.FaultNone {
 					mu.Lock()
 					out.Failed = true
@@ -184,62 +247,136 @@ func c01hRun(t *testing.T, p c01hPlan) (out c01hOut) {
 					mu.Unlock()
 				}
 				sched.Gate("s3", op.Kind+" "+op.Key)
+			} else if op.Kind == "list" {
+				mu.Lock()
+				if inFlight >= 2 {
+					out.ColdConc = true
+				}
+				mu.Unlock()
+				sched.Gate("s3", "list "+op.Key)
+			}
+			mu.Lock()
+			d := dead
+			mu.Unlock()
+			if d {
+				obj.SetCrashed(true) // the call that was parked when the process died has no effect
 			}
 		}
-		inner := vfStoreWithTopics(map[string]int32{"orders": 2})
-		store := &c01hStore{Store: inner, sched: sched, gated: &gated}
-		h := vfNewHandler(store, obj, vfHandlerOpts{SegmentBytes: p.SegBytes, ReadAhead: 0, NoS3Backpressure: true})
-		defer h.coordinator.Stop()
+		var inner *metadata.InMemoryStore
+		if p.AutoCreate {
+			inner = vfStoreWithTopics(map[string]int32{"other": 1})
+		} else {
+			inner = vfStoreWithTopics(map[string]int32{"orders": 2})
+		}
+		store := &c01hStore{Store: inner, sched: sched, gated: &gated, dead: &dead, mu: &mu}
+		opts := vfHandlerOpts{SegmentBytes: p.SegBytes, ReadAhead: 0, NoS3Backpressure: true}
+		if p.AutoCreate {
+			os.Setenv("KAFSCALE_AUTO_CREATE_PARTITIONS", "2")
+		} else {
+			os.Unsetenv("KAFSCALE_AUTO_CREATE_PARTITIONS")
+		}
+		defer os.Unsetenv("KAFSCALE_AUTO_CREATE_PARTITIONS")
+		h := vfNewHandler(store, obj, opts)
+		defer func() { h.coordinator.Stop() }()
 
-		for w, reqs := range p.Workers {
-			w, reqs := w, reqs
-			sched.Go(fmt.Sprintf("w%d", w), func() {
-				for i, r := range reqs {
-					var parts []vfProducePart
-					var tags []string
-					for k, pp := range r.Parts {
-						tag := fmt.Sprintf("w%d-%d-%d", w, i, k)
-						tags = append(tags, tag)
-						parts = append(parts, vfProducePart{Topic: "orders", Partition: pp.Partition, Records: c06Batch(tag, pp.Records, 6)})
-					}
-					sched.Gate(fmt.Sprintf("w%d", w), fmt.Sprintf("produce %d acks=%d", i, r.Acks))
-					mu.Lock()
-					inFlight++
-					mu.Unlock()
-					res, err := vfProduce(h, 7, r.Acks, "vf", parts)
-					mu.Lock()
-					inFlight--
-					mu.Unlock()
-					if err != nil {
-						mu.Lock()
-						out.V01 = append(out.V01, "harness: produce transport error: "+err.Error())
-						mu.Unlock()
-						return
-					}
-					if r.Acks == 0 {
-						continue
-					}
-					if len(res) != len(parts) {
-						mu.Lock()
-						out.V01 = append(out.V01, fmt.Sprintf("harness: %d partition responses for %d partitions", len(res), len(parts)))
-						mu.Unlock()
-						return
-					}
-					for k, pr := range res {
-						if pr.ErrorCode != 0 {
+		sentBy := map[string]int32{} // raw[8:] of every batch ever sent -> partition
+		runWorkers := func(h *handler, phase string, workers [][]c01hReq) {
+			for w, reqs := range workers {
+				w, reqs := w, reqs
+				name := fmt.Sprintf("%s-w%d", phase, w)
+				sched.Go(name, func() {
+					for i, r := range reqs {
+						if r.Fetch {
+							part := r.Parts[0].Partition
+							sched.Gate(name, fmt.Sprintf("fetch %d", i))
+							mu.Lock()
+							inFlight++
+							mu.Unlock()
+							fr, err := vfFetch(h, 11, "orders", part, 0, 1<<22)
+							mu.Lock()
+							inFlight--
+							out.Fetches++
+							isDead := dead
+							mu.Unlock()
+							if err != nil || isDead || fr.ErrorCode != 0 {
+								continue
+							}
+							bs, _ := vfkit.DecodeBatchesLenient(fr.Records)
+							for _, b := range bs {
+								mu.Lock()
+								owner, known := sentBy[string(b.Raw[8:])]
+								mu.Unlock()
+								if !known {
+									mu.Lock()
+									out.V03 = append(out.V03, fmt.Sprintf("fetch(partition %d) returned a batch at base offset %d that no client produced", part, b.BaseOffset))
+									mu.Unlock()
+								} else if owner != part {
+									mu.Lock()
+									out.V03 = append(out.V03, fmt.Sprintf("fetch(partition %d) returned a batch (base offset %d) that was produced to partition %d", part, b.BaseOffset, owner))
+									mu.Unlock()
+								}
+							}
 							continue
 						}
-						a := c01hAck{Tag: tags[k], Partition: pr.Partition, Base: pr.Base, Records: r.Parts[k].Records, Raw: parts[k].Records}
-						msg := c01hSegHas(obj, a)
-						mu.Lock()
-						out.Acks = append(out.Acks, a)
-						if msg != "" {
-							out.V01 = append(out.V01, "at ack time: "+msg)
+						var parts []vfProducePart
+						var tags []string
+						for k, pp := range r.Parts {
+							tag := fmt.Sprintf("%s%d-%d-%d", phase, w, i, k)
+							tags = append(tags, tag)
+							raw := c06Batch(tag, pp.Records, 6)
+							mu.Lock()
+							sentBy[string(raw[8:])] = pp.Partition
+							mu.Unlock()
+							parts = append(parts, vfProducePart{Topic: "orders", Partition: pp.Partition, Records: raw})
 						}
+						sched.Gate(name, fmt.Sprintf("produce %d acks=%d", i, r.Acks))
+						mu.Lock()
+						inFlight++
 						mu.Unlock()
+						res, err := vfProduce(h, 7, r.Acks, "vf", parts)
+						mu.Lock()
+						inFlight--
+						isDead := dead
+						mu.Unlock()
+						if isDead {
+							return // the reply of a dead process is never delivered
+						}
+						if err != nil {
+							mu.Lock()
+							out.V01 = append(out.V01, "harness: produce transport error: "+err.Error())
+							mu.Unlock()
+							return
+						}
+						if r.Acks == 0 {
+							continue
+						}
+						if len(res) != len(parts) {
+							mu.Lock()
+							out.V01 = append(out.V01, fmt.Sprintf("harness: %d partition responses for %d partitions", len(res), len(parts)))
+							mu.Unlock()
+							return
+						}
+						for k, pr := range res {
+							if pr.ErrorCode != 0 {
+								continue
+							}
+							a := c01hAck{Tag: tags[k], Partition: pr.Partition, Base: pr.Base, Records: r.Parts[k].Records, Raw: parts[k].Records}
+							msg := c01hSegHas(obj, a)
+							mu.Lock()
+							for _, o := range out.Acks {
+								if o.Partition == a.Partition && a.Base < o.Base+int64(o.Records) && o.Base < a.Base+int64(a.Records) {
+									out.V01 = append(out.V01, fmt.Sprintf("batches %s and %s of partition %d were both acknowledged at overlapping offsets (%d and %d): one of them cannot be in the log", o.Tag, a.Tag, a.Partition, o.Base, a.Base))
+								}
+							}
+							out.Acks = append(out.Acks, a)
+							if msg != "" {
+								out.V01 = append(out.V01, "at ack time: "+msg)
+							}
+							mu.Unlock()
+						}
 					}
-				}
-			})
+				})
+			}
 		}
 		prev := map[int32]int64{}
 		check05 := func(step string) {
@@ -261,39 +398,84 @@ func c01hRun(t *testing.T, p c01hPlan) (out c01hOut) {
 			}
 		}
 		pi := 0
-		for {
-			ps := sched.ParkedNow()
-			if len(ps) == 0 {
-				break
-			}
-			mu.Lock()
-			for _, q := range ps {
-				if q.Worker == "store" && inFlight >= 2 {
-					out.PubParked = true
+		drive := func(crashAt, crashOnPublish int) {
+			step := 0
+			pubSeen := map[int]bool{}
+			for {
+				ps := sched.ParkedNow()
+				if len(ps) == 0 {
+					return
 				}
+				if crashOnPublish > 0 {
+					for _, q := range ps {
+						if q.Worker == "store" && strings.HasPrefix(q.Label, "update-offsets") {
+							pubSeen[q.ID] = true
+						}
+					}
+					if len(pubSeen) >= crashOnPublish {
+						crashAt, crashOnPublish = step, 0
+					}
+				}
+				if crashAt >= 0 && step == crashAt {
+					mu.Lock()
+					if !dead {
+						dead = true
+						out.Crashed = true
+						sched.Trace = append(sched.Trace, "PROCESS-DIES")
+					}
+					mu.Unlock()
+				}
+				mu.Lock()
+				for _, q := range ps {
+					if q.Worker == "store" && inFlight >= 2 {
+						if strings.HasPrefix(q.Label, "update-offsets") {
+							out.PubParked = true
+						} else {
+							out.AutoRace = true
+						}
+					}
+				}
+				mu.Unlock()
+				k := 0
+				if pi < len(p.Picks) {
+					k = p.Picks[pi] % len(ps)
+				}
+				pi++
+				step++
+				lbl := ps[k].Worker + ":" + ps[k].Label
+				sched.Release(ps[k].ID)
+				check05(lbl)
 			}
-			mu.Unlock()
-			k := 0
-			if pi < len(p.Picks) {
-				k = p.Picks[pi] % len(ps)
-			}
-			pi++
-			lbl := ps[k].Worker + ":" + ps[k].Label
-			sched.Release(ps[k].ID)
-			check05(lbl)
 		}
-		out.Trace = sched.Trace
+		runWorkers(h, "a", p.Workers)
+		drive(p.CrashAt, p.CrashOnPublish)
 		if sched.Running() != 0 {
 			out.V01 = append(out.V01, fmt.Sprintf("harness: %d workers still running with nothing parked", sched.Running()))
+			out.Trace = sched.Trace
 			return
 		}
-		// restart: new handler on the same store and S3 model, no faults, no gates
+		// phase 2: new process on the same store and S3 model, concurrent clients on cold partitions
+		mu.Lock()
+		dead = false
+		mu.Unlock()
+		obj.SetCrashed(false)
+		faultsOn = false
+		h.coordinator.Stop()
+		h = vfNewHandler(store, obj, opts)
+		sched.Trace = append(sched.Trace, "NEW-HANDLER")
+		runWorkers(h, "b", p.Workers2)
+		drive(-1, 0)
+		out.Trace = sched.Trace
+		if sched.Running() != 0 {
+			out.V01 = append(out.V01, fmt.Sprintf("harness: %d workers still running with nothing parked (phase 2)", sched.Running()))
+			return
+		}
+		// final: fresh handler, no gates: every acknowledged batch must be fetchable
 		gated = false
-		obj.Fault = nil
-		h2 := vfNewHandler(store, obj, vfHandlerOpts{SegmentBytes: p.SegBytes, ReadAhead: 0, NoS3Backpressure: true})
-		defer h2.coordinator.Stop()
+		h3 := vfNewHandler(store, obj, opts)
+		defer h3.coordinator.Stop()
 		for _, a := range out.Acks {
-			fr, err := vfFetch(h2, 11, "orders", a.Partition, a.Base, 1<<22)
+			fr, err := vfFetch(h3, 11, "orders", a.Partition, a.Base, 1<<22)
 			if err != nil || fr.ErrorCode != 0 {
 				out.V01 = append(out.V01, fmt.Sprintf("after restart: fetch(partition %d, offset %d) for acked batch %s failed: err=%v code=%d hw=%d", a.Partition, a.Base, a.Tag, err, fr.ErrorCode, fr.HighWatermark))
 				continue
@@ -320,28 +502,37 @@ func c01hCheck(t *testing.T, focus string) {
 		p := c01hDraw(rt)
 		st.Eval()
 		r := c01hRun(t, p)
-		if r.Failed {
-			st.Class("upload-failed")
+		for name, on := range map[string]bool{"upload-failed": r.Failed, "failure-with-2+-requests-in-flight": r.Concurrent,
+			"end-offset-update-parked-with-concurrent-request": r.PubParked, "has-acks": len(r.Acks) > 0, "process-died-in-phase-1": r.Crashed,
+			"cold-partition-listing-parked-with-concurrent-request": r.ColdConc, "auto-create-parked-with-concurrent-request": r.AutoRace,
+			"phase-2-fetches": r.Fetches > 0} {
+			if on {
+				st.Class(name)
+			}
 		}
-		if r.Concurrent {
-			st.Class("failure-with-2+-requests-in-flight")
+		nt := false
+		switch focus {
+		case "C01":
+			nt = (r.Failed && r.Concurrent) || r.AutoRace || (r.Crashed && len(r.Acks) > 0)
+		case "C05":
+			nt = r.PubParked || r.Failed || r.Crashed
+		case "C03":
+			nt = r.Fetches > 0 && r.ColdConc
+		case "C06":
+			nt = r.Crashed && len(r.Acks) > 0
 		}
-		if r.PubParked {
-			st.Class("end-offset-update-parked-with-concurrent-request")
-		}
-		if len(r.Acks) > 0 {
-			st.Class("has-acks")
-		}
-		nt := (focus == "C01" && r.Failed && r.Concurrent) || (focus == "C05" && (r.PubParked || r.Failed))
 		if nt {
 			if st.NonTrivial(fmt.Sprintf("%+v", p)) {
 				st.Sample(map[string]any{"plan": p, "trace": r.Trace, "acks": len(r.Acks), "published": r.Published})
 			}
 		}
-		for _, v := range append(append([]string{}, r.V01...), r.V05...) {
+		for _, v := range append(append(append([]string{}, r.V01...), r.V05...), r.V03...) {
 			if strings.HasPrefix(v, "harness:") {
 				rt.Fatalf("%s\ntrace %v", v, r.Trace)
 			}
+		}
+		if focus == "C06" && len(r.V01) > 0 {
+			rt.Fatalf("C06 violated (concurrent producers, process death, restart): %s\ntrace: %v", strings.Join(r.V01, "\n"), r.Trace)
 		}
 		if focus == "C01" && len(r.V01) > 0 {
 			rt.Fatalf("C01 violated: %s\ntrace: %v", strings.Join(r.V01, "\n"), r.Trace)
@@ -349,8 +540,13 @@ func c01hCheck(t *testing.T, focus string) {
 		if focus == "C05" && len(r.V05) > 0 {
 			rt.Fatalf("C05 violated: %s\ntrace: %v\npublished: %v", strings.Join(r.V05, "\n"), r.Trace, r.Published)
 		}
+		if focus == "C03" && len(r.V03) > 0 {
+			rt.Fatalf("C03 violated: %s\ntrace: %v", strings.Join(r.V03, "\n"), r.Trace)
+		}
 	})
 }
 
 func TestVF_C01_HandlerSched(t *testing.T) { c01hCheck(t, "C01") }
 func TestVF_C05_HandlerSched(t *testing.T) { c01hCheck(t, "C05") }
+func TestVF_C03_HandlerSched(t *testing.T) { c01hCheck(t, "C03") }
+func TestVF_C06_HandlerSched(t *testing.T) { c01hCheck(t, "C06") }
